@@ -137,7 +137,7 @@ bool TlsWorld::setup(const PairCfg &c) {
     s.psk = pc.psk; s.ticket_keys = pc.tickets; s.ticket_key_id = pc.ticket_key_id; s.tls13_psk = pc.tls13_ext_psk;
     if (pc.client_auth && pc.client_identity != KK_NONE) { s.ca_mask = 1u << pc.client_identity; }
     else if (pc.client_auth) { s.ca_mask = 1u << KK_RSA2048; }
-    k.identity = pc.client_identity; k.forge_cert_sig = pc.forge_client_cert; k.forge_cert_mode = pc.forge_mode;
+    k.identity = pc.client_identity; k.cert_is_ca = pc.client_cert_is_ca; k.forge_cert_sig = pc.forge_client_cert; k.forge_cert_mode = pc.forge_mode;
     k.psk = pc.psk; k.tls13_psk = pc.tls13_ext_psk;
     if (pc.tls13_ext_psk && !pc.suites.empty()) { s.tls13_psk_cipher = k.tls13_psk_cipher = pc.suites[0]; }
     if (pc.server_identity != KK_NONE) {
